@@ -20,7 +20,8 @@ SPECS = {
     "cluster_rule": ("gen_cluster_rule", ["matid/clustering/cluster.py"], ["MatidGen/ClusterRule.lean"]),
     "analyzer_rule": ("gen_analyzer_rule", ["matid/symmetry/symmetryanalyzer.py"], ["MatidGen/AnalyzerRule.lean"]),
     "sbc_rule": ("gen_sbc_rule", ["matid/clustering/sbc.py", "matid/core/periodicfinder.py"], ["MatidGen/SbcRule.lean"]),
-    "dim_rule": ("gen_dim_rule", ["matid/geometry/geometry.py"], ["MatidGen/DimRule.lean"]),
+    "classifier_rule": ("gen_classifier_rule", ["matid/classification/classifier.py"], ["MatidGen/ClassifierRule.lean"]),
+    "dim_rule": ("gen_dim_rule", ["matid/geometry/geometry.py", "matid/clustering/sbc.py"], ["MatidGen/DimRule.lean"]),
 }
 
 
